@@ -216,6 +216,13 @@ func runC08(res *lib.Result, tier string, seed int64, args []string) error {
 			disk["f0.lua"], files["f0.lua"] = 24, c08Variant(0, 24)
 			disk["sub/f2.lua"], files["sub/f2.lua"] = 0, c08Variant(2, 0)
 		}
+		if hi%32 == 17 {
+			// f0.lua is clean on disk (no saved diagnostics at all); it gets a clean unsaved edit, then the file is rewritten
+			// on disk with a syntax error: the buffer is still clean and unsaved, the saved syntax error stays hidden
+			disk["f0.lua"], files["f0.lua"] = 0, c08Variant(0, 0)
+			disk["f1.lua"], files["f1.lua"] = 0, c08Variant(1, 0)
+			disk["sub/f2.lua"], files["sub/f2.lua"] = 0, c08Variant(2, 0)
+		}
 		if hi%32 == 16 {
 			// sub/f2.lua loads f0.lua by path (dofile: resolved through the file-exists cache); the script deletes f0.lua
 			disk["f0.lua"], files["f0.lua"] = 0, c08Variant(0, 0)
@@ -354,6 +361,9 @@ func runC08(res *lib.Result, tier string, seed int64, args []string) error {
 		if hi%32 == 16 {
 			script = []scripted{{0, 9, -2}}
 		}
+		if hi%32 == 17 {
+			script = []scripted{{0, 0, 0}, {0, 2, 8}, {0, 10, 1}}
+		}
 		if hi%32 == 8 {
 			script = []scripted{{1, 9, 22}}
 		}
@@ -381,7 +391,7 @@ func runC08(res *lib.Result, tier string, seed int64, args []string) error {
 			}
 			script = []scripted{{a, 0, 0}, {a, 2, []int{1, 6, 7}[r.Intn(3)]}, {a, 7, 0}, {b, 0, 0}, {b, 2, []int{0, 8}[r.Intn(2)]}, {b, 5, 0}}
 		}
-		if (hi%32 == 5 || hi%32 == 13) || hi%32 == 1 || hi%32 == 2 || k1Hist || hi%32 == 6 || hi%32 == 0 || hi%32 == 4 || hi%32 == 12 || hi%32 == 14 || hi%32 == 8 || hi%32 == 9 || hi%32 == 16 {
+		if (hi%32 == 5 || hi%32 == 13) || hi%32 == 1 || hi%32 == 2 || k1Hist || hi%32 == 6 || hi%32 == 0 || hi%32 == 4 || hi%32 == 12 || hi%32 == 14 || hi%32 == 8 || hi%32 == 9 || hi%32 == 16 || hi%32 == 17 {
 			nEv = r.Intn(2) // the comparison with a fresh server follows (almost) directly
 		} else if hi%3 == 1 {
 			nEv = 1 + r.Intn(4) // short histories: the state right after an event is compared with a fresh server
